@@ -32,12 +32,16 @@ mod c13;
 mod c14;
 #[cfg(feature = "c15")]
 mod c15;
+#[cfg(feature = "c15e")]
+mod c15e;
 #[cfg(feature = "c19")]
 mod c19;
 #[cfg(feature = "c20")]
 mod c20;
 #[cfg(feature = "c02")]
 mod c02;
+#[cfg(feature = "c02e")]
+mod c02e;
 #[cfg(feature = "c16")]
 mod c16;
 #[cfg(feature = "c17")]
@@ -90,12 +94,16 @@ fn main() {
         "C14" => c14::run(seed, std::env::args().nth(3).as_deref() == Some("thorough")),
         #[cfg(feature = "c15")]
         "C15" => c15::run(seed),
+        #[cfg(feature = "c15e")]
+        "C15E" => c15e::run(seed, std::env::args().nth(3).as_deref() == Some("thorough")),
         #[cfg(feature = "c19")]
         "C19" => c19::run(seed, std::env::args().nth(3).as_deref() == Some("thorough")),
         #[cfg(feature = "c20")]
         "C20" => c20::run(seed, std::env::args().nth(3).as_deref() == Some("thorough")),
         #[cfg(feature = "c02")]
         "C02" => c02::run(seed, std::env::args().nth(3).as_deref() == Some("thorough")),
+        #[cfg(feature = "c02e")]
+        "C02E" => c02e::run(seed, std::env::args().nth(3).as_deref() == Some("thorough")),
         #[cfg(feature = "c16")]
         "C16" => c16::run(seed, std::env::args().nth(3).as_deref() == Some("thorough")),
         #[cfg(feature = "c17")]
